@@ -80,6 +80,7 @@ Definition mod_modelled (mk : modk) (nargs : nat) : bool :=
      | MSpawn | MPool | MRepeat | MStencil | MReduceContent | MReduceDepth _
      | MHandleSig | MOnSub _ | MBothImpl 0 _ | MUnBothImpl 0 _), 1 => true
   | (MFork | MBracket | MFill | MTry | MRepeatWithInverse), 2 => true
+  | MTry, S (S (S _)) => true      (* any number of handlers *)
   | _, _ => false end.
 Fixpoint exec_modelled (n : node) : bool :=
   match n with
